@@ -94,7 +94,7 @@ def run(res):
         for kind, detail, where in fails:
             fid = None
             for prefix, f in KNOWN.items():
-                if kind.startswith(prefix):
+                if common.kind_matches(kind, prefix):
                     fid = f
             if fid:
                 res.known_hit(fid)
